@@ -51,7 +51,8 @@ class Census:
                 continue
             s = {'in': dev._part, 'out': dev._output}
             if k == 'buffer':
-                s['buf'] = [x[1] for x in dev._buffer]
+                # (the public view of the queue, oldest part first)
+                s['buf'] = list(dev.stored_parts)
             elif k == 'batcher':
                 # (the batch under construction has no public accessor; if the private attribute is gone, the
                 # snapshot says so and nothing that needs it is judged)
